@@ -55,7 +55,15 @@ RECIPES = [
     ("C17", "break", ["C17-R5"], UNC, "            V[:, i + 1] = vi = v_part - Bp * dmpfrc1\n            dmpfrc0 = dmpfrc1\n\n        if not self.slices:\n            d[kdof] = D\n            v[kdof] = V\n\n    def _solve_real_unc_generator(",
      "            V[:, i + 1] = vi = v_part - Bp * dmpfrc1\n\n        if not self.slices:\n            d[kdof] = D\n            v[kdof] = V\n\n    def _solve_real_unc_generator(",
      "damping force not carried to the next step"),
+    # ---- partitions given as index vectors / rf modes
+    ("C17", "break", ["C17-R1"], NM, "                d[self.kdof] = D\n", "                pass\n", "displacements not copied back for index-vector partitions"),
+    ("C17", "break", ["C17-R5"], UNC, "        if not self.slices:\n            d[kdof] = D\n            v[kdof] = V\n\n    def _solve_real_unc_generator(",
+     "        if not self.slices:\n            d[kdof] = D\n\n    def _solve_real_unc_generator(", "velocities of the damping-as-force solver not copied back"),
+    ("C17", "break", ["C17-R2"], NM, "                d[self.rf] = self.ikrf * force[self.rf]", "                d[self.rf] = force[self.rf] / self.ikrf",
+     "rf equations divided by the flexibility"),
     # ---- behaviour-preserving refactorings
+    ("C17", "neutral", [], NM, "            d[self.nonrf, -1] = u_1\n", "            if v0.any():\n                d[self.nonrf, -1] = u_1\n            else:\n                d[self.nonrf, -1] = d0 - v0 * h\n",
+     "the same store on both arms of a data-dependent test"),
     ("C17", "neutral", [], NM, "                    De = 3 * F[:, -1] + A1 * D[:, -1] + A0 * D[:, -2]",
      "                    f_last = F[:, nt - 1]\n                    De = 3 * f_last + A1 * D[:, nt - 1] + A0 * D[:, nt - 2]", "explicit last indices and a temporary"),
     ("C17", "neutral", [], NM, "        u_1 = d0 - v0 * h\n", "        u_prev = d0 - v0 * h\n        u_1 = u_prev\n", "alias of u_-1"),
